@@ -506,7 +506,7 @@ func describe(s, nf, nv int) string {
 	return strings.Join(parts, ",")
 }
 
-var dmgOps = []string{"delete", "flip", "insert", "remove", "truncate", "append", "swap", "copy", "move", "overwrite", "trimzeros"}
+var dmgOps = []string{"delete", "flip", "insert", "remove", "truncate", "append", "swap", "copy", "move", "overwrite", "trimzeros", "catonto"}
 
 func genCase(t *rapid.T, maxSteps int) Case {
 	c := Case{Format: rapid.SampledFrom([]string{"par2", "par2", "par1"}).Draw(t, "format")}
@@ -616,6 +616,20 @@ func TestCheck(t *testing.T) {
 		c := Case{Format: "par2", Slice: 4, N: 2, Files: []scen.FileSpec{{Name: "z.bin", Size: 4 * nz, Kind: "zeros", Seed: 1}, {Name: "a.dat", Size: 10, Kind: "random", Seed: 2}}}
 		c.Actions = []Action{{Kind: "damage", Damage: scen.Damage{Op: "flip", File: 1, Off: 5}}, {Kind: "verify"}, {Kind: "repair"}, {Kind: "verify"}, {Kind: "repair", DC: true},
 			{Kind: "damage", Damage: scen.Damage{Op: "truncate", File: 0, Off: 4*nz - 6}}, {Kind: "repair"}, {Kind: "verify"}, {Kind: "repair"}}
+		do(c)
+	}
+	// two files of 16 MiB that have exchanged their contents (every slice is still there, no recovery block is needed), and
+	// "cat F G > F; rm G" with F a whole number of slices
+	if cfg.Mine(85) {
+		rec.Class("history-with-16MiB-files-exchanged")
+		c := Case{Format: "par2", Slice: 1 << 20, N: 1, Files: []scen.FileSpec{{Name: "one.bin", Size: 16 << 20, Kind: "random", Seed: 21}, {Name: "two.bin", Size: 16 << 20, Kind: "random", Seed: 22}}}
+		c.Actions = []Action{{Kind: "damage", Damage: scen.Damage{Op: "swap", File: 0, Other: 1}}, {Kind: "verify"}, {Kind: "repair"}, {Kind: "verify"}, {Kind: "repair", DC: true}}
+		do(c)
+	}
+	if cfg.Mine(86) {
+		rec.Class("history-with-lost-file-appended-to-a-complete-file")
+		c := Case{Format: "par2", Slice: 8, N: 1, Files: []scen.FileSpec{{Name: "f.bin", Size: 32, Kind: "random", Seed: 23}, {Name: "g.bin", Size: 21, Kind: "random", Seed: 24}}}
+		c.Actions = []Action{{Kind: "damage", Damage: scen.Damage{Op: "catonto", File: 0, Other: 1}}, {Kind: "verify"}, {Kind: "repair"}, {Kind: "repair", DC: true}, {Kind: "verify"}}
 		do(c)
 	}
 	// a file whose second half is all zero (64 KiB and more of zeros at the end) is lost, restored, verified, repaired again
